@@ -1,37 +1,76 @@
-//! Sorted-Vec models of BTreeMap / BTreeSet (verification only)
+//! M-BTREE: sorted inline-array models of BTreeMap / BTreeSet (verification only).
+//!
+//! Same API subset and the same (sorted) iteration order as `std::collections::BTreeMap`.
+//! Entries live in an inline array of `Option<(K, V)>` slots rather than on the heap:
+//! CBMC's symbolic execution constant-propagates stores to inline arrays at constant
+//! indices, whereas anything that went through `Vec::insert`'s `memmove` is opaque to it
+//! (every later `match value.as_str()` then keeps all arms feasible).
+//! Validated by running the repository's own unit tests against the substituted build
+//! (`bin/check --validate-models`).
 use std::borrow::Borrow;
 
-#[derive(Debug, Clone)]
+#[cfg(kani)]
+pub const CAP: usize = 12;
+#[cfg(not(kani))]
+pub const CAP: usize = 40;
+
+#[derive(Debug)]
 pub struct BTreeMap<K, V> {
-    items: Vec<(K, V)>,
+    len: usize,
+    slots: [Option<(K, V)>; CAP],
 }
+
 impl<K, V> Default for BTreeMap<K, V> {
     fn default() -> Self {
-        BTreeMap { items: Vec::new() }
+        BTreeMap { len: 0, slots: [const { None }; CAP] }
     }
 }
+
+impl<K: Clone, V: Clone> Clone for BTreeMap<K, V> {
+    fn clone(&self) -> Self {
+        let mut out = BTreeMap { len: 0, slots: [const { None }; CAP] };
+        let mut i = 0;
+        while i < self.len {
+            out.slots[i] = self.slots[i].clone();
+            i += 1;
+        }
+        out.len = self.len;
+        out
+    }
+}
+
+fn split_slot<K, V>(kv: &Option<(K, V)>) -> (&K, &V) {
+    let kv = kv.as_ref().unwrap();
+    (&kv.0, &kv.1)
+}
+
+fn first_slot<K>(kv: &Option<(K, ())>) -> &K {
+    &kv.as_ref().unwrap().0
+}
+
 impl<'a, K, V> IntoIterator for &'a BTreeMap<K, V> {
     type Item = (&'a K, &'a V);
-    type IntoIter = std::iter::Map<std::slice::Iter<'a, (K, V)>, fn(&'a (K, V)) -> (&'a K, &'a V)>;
+    type IntoIter =
+        std::iter::Map<std::slice::Iter<'a, Option<(K, V)>>, fn(&'a Option<(K, V)>) -> (&'a K, &'a V)>;
     fn into_iter(self) -> Self::IntoIter {
-        fn split<'b, K, V>(kv: &'b (K, V)) -> (&'b K, &'b V) {
-            (&kv.0, &kv.1)
-        }
-        self.items.iter().map(split as fn(&'a (K, V)) -> (&'a K, &'a V))
+        self.slots[..self.len]
+            .iter()
+            .map(split_slot as fn(&'a Option<(K, V)>) -> (&'a K, &'a V))
     }
 }
 
 impl<K: Ord, V> BTreeMap<K, V> {
     pub fn new() -> Self {
-        BTreeMap { items: Vec::new() }
+        BTreeMap { len: 0, slots: [const { None }; CAP] }
     }
+
     fn pos<Q: ?Sized + Ord>(&self, key: &Q) -> Result<usize, usize>
     where
         K: Borrow<Q>,
     {
         let mut i = 0;
-        while i < self.items.len() {
-            match self.items[i].0.borrow().cmp(key) {
+        while i < self.len {
+            match self.slots[i].as_ref().unwrap().0.borrow().cmp(key) {
                 std::cmp::Ordering::Less => i += 1,
                 std::cmp::Ordering::Equal => return Ok(i),
                 std::cmp::Ordering::Greater => return Err(i),
@@ -39,63 +78,99 @@ impl<K: Ord, V> BTreeMap<K, V> {
         }
         Err(i)
     }
+
     pub fn insert(&mut self, key: K, value: V) -> Option<V> {
         match self.pos(&key) {
-            Ok(i) => Some(std::mem::replace(&mut self.items[i].1, value)),
+            Ok(i) => {
+                let old = self.slots[i].take();
+                self.slots[i] = Some((key, value));
+                old.map(|kv| kv.1)
+            }
             Err(i) => {
-                self.items.insert(i, (key, value));
+                assert!(self.len < CAP, "M-BTREE model capacity exceeded");
+                let mut j = self.len;
+                while j > i {
+                    self.slots[j] = self.slots[j - 1].take();
+                    j -= 1;
+                }
+                self.slots[i] = Some((key, value));
+                self.len += 1;
                 None
             }
         }
     }
+
     pub fn get<Q: ?Sized + Ord>(&self, key: &Q) -> Option<&V>
     where
         K: Borrow<Q>,
     {
         match self.pos(key) {
-            Ok(i) => Some(&self.items[i].1),
+            Ok(i) => Some(&self.slots[i].as_ref().unwrap().1),
             Err(_) => None,
         }
     }
+
     pub fn contains_key<Q: ?Sized + Ord>(&self, key: &Q) -> bool
     where
         K: Borrow<Q>,
     {
         self.pos(key).is_ok()
     }
+
     pub fn remove<Q: ?Sized + Ord>(&mut self, key: &Q) -> Option<V>
     where
         K: Borrow<Q>,
     {
         match self.pos(key) {
-            Ok(i) => Some(self.items.remove(i).1),
+            Ok(i) => {
+                let old = self.slots[i].take();
+                let mut j = i;
+                while j + 1 < self.len {
+                    self.slots[j] = self.slots[j + 1].take();
+                    j += 1;
+                }
+                self.len -= 1;
+                old.map(|kv| kv.1)
+            }
             Err(_) => None,
         }
     }
+
     pub fn iter(&self) -> impl DoubleEndedIterator<Item = (&K, &V)> {
-        self.items.iter().map(|kv| (&kv.0, &kv.1))
+        self.slots[..self.len].iter().map(split_slot)
     }
+
     pub fn into_keys(self) -> impl Iterator<Item = K> {
-        self.items.into_iter().map(|kv| kv.0)
+        self.into_iter().map(|kv| kv.0)
     }
+
     pub fn len(&self) -> usize {
-        self.items.len()
+        self.len
     }
+
     pub fn is_empty(&self) -> bool {
-        self.items.is_empty()
+        self.len == 0
     }
+
     pub fn clear(&mut self) {
-        self.items.clear()
+        let mut i = 0;
+        while i < self.len {
+            self.slots[i] = None;
+            i += 1;
+        }
+        self.len = 0;
     }
+
     pub fn entry(&mut self, key: K) -> Entry<'_, K, V> {
         Entry { map: self, key }
     }
+
     pub fn clone_from(&mut self, other: &Self)
     where
         K: Clone,
         V: Clone,
     {
-        self.items = other.items.clone();
+        *self = other.clone();
     }
 }
 
@@ -103,16 +178,17 @@ pub struct Entry<'a, K, V> {
     map: &'a mut BTreeMap<K, V>,
     key: K,
 }
+
 impl<'a, K: Ord, V> Entry<'a, K, V> {
     pub fn or_insert_with<F: FnOnce() -> V>(self, f: F) -> &'a mut V {
         let i = match self.map.pos(&self.key) {
             Ok(i) => i,
             Err(i) => {
-                self.map.items.insert(i, (self.key, f()));
+                self.map.insert(self.key, f());
                 i
             }
         };
-        &mut self.map.items[i].1
+        &mut self.map.slots[i].as_mut().unwrap().1
     }
 }
 
@@ -123,13 +199,21 @@ impl<K: Ord, V> Extend<(K, V)> for BTreeMap<K, V> {
         }
     }
 }
+
 impl<K, V> IntoIterator for BTreeMap<K, V> {
     type Item = (K, V);
     type IntoIter = std::vec::IntoIter<(K, V)>;
-    fn into_iter(self) -> Self::IntoIter {
-        self.items.into_iter()
+    fn into_iter(mut self) -> Self::IntoIter {
+        let mut v = Vec::with_capacity(self.len);
+        let mut i = 0;
+        while i < self.len {
+            v.push(self.slots[i].take().unwrap());
+            i += 1;
+        }
+        v.into_iter()
     }
 }
+
 impl<K: Ord, V, const N: usize> From<[(K, V); N]> for BTreeMap<K, V> {
     fn from(arr: [(K, V); N]) -> Self {
         let mut m = BTreeMap::new();
@@ -139,6 +223,7 @@ impl<K: Ord, V, const N: usize> From<[(K, V); N]> for BTreeMap<K, V> {
         m
     }
 }
+
 impl<K: Ord, Q: ?Sized + Ord, V> std::ops::Index<&Q> for BTreeMap<K, V>
 where
     K: Borrow<Q>,
@@ -149,25 +234,33 @@ where
     }
 }
 
-#[derive(Debug, Clone)]
+#[derive(Debug)]
 pub struct BTreeSet<K> {
     map: BTreeMap<K, ()>,
 }
+
 impl<K> Default for BTreeSet<K> {
     fn default() -> Self {
         BTreeSet { map: BTreeMap::default() }
     }
 }
-impl<'a, K> IntoIterator for &'a BTreeSet<K> {
-    type Item = &'a K;
-    type IntoIter = std::iter::Map<std::slice::Iter<'a, (K, ())>, fn(&'a (K, ())) -> &'a K>;
-    fn into_iter(self) -> Self::IntoIter {
-        fn first<'b, K>(kv: &'b (K, ())) -> &'b K {
-            &kv.0
-        }
-        self.map.items.iter().map(first as fn(&'a (K, ())) -> &'a K)
+
+impl<K: Clone> Clone for BTreeSet<K> {
+    fn clone(&self) -> Self {
+        BTreeSet { map: self.map.clone() }
     }
 }
+
+impl<'a, K> IntoIterator for &'a BTreeSet<K> {
+    type Item = &'a K;
+    type IntoIter = std::iter::Map<std::slice::Iter<'a, Option<(K, ())>>, fn(&'a Option<(K, ())>) -> &'a K>;
+    fn into_iter(self) -> Self::IntoIter {
+        self.map.slots[..self.map.len]
+            .iter()
+            .map(first_slot as fn(&'a Option<(K, ())>) -> &'a K)
+    }
+}
+
 impl<K: Ord> BTreeSet<K> {
     pub fn new() -> Self {
         BTreeSet { map: BTreeMap::new() }
